@@ -1,0 +1,22 @@
+//go:build verif
+// +build verif
+
+// Verification-only entry points used by /verif (C06, build tag "verif"): synchronous hand-over of an evidence to the
+// module's local list -- what the Evidence subscriber goroutine of Start does -- so that a driver can run the module
+// without an event mux (no goroutines).  Nothing here is compiled into a normal build.
+
+package staking
+
+// VerifC06AddEvidence appends one evidence to the local evidence list under the module's mutex.
+func (s *Staking) VerifC06AddEvidence(e Evidence) {
+	s.mutex.Lock()
+	s.evidences = append(s.evidences, e)
+	s.mutex.Unlock()
+}
+
+// VerifC06EvidenceCount returns the length of the local evidence list.
+func (s *Staking) VerifC06EvidenceCount() int {
+	s.mutex.RLock()
+	defer s.mutex.RUnlock()
+	return len(s.evidences)
+}
